@@ -277,7 +277,7 @@ def variants(tier: str) -> List[Dict[str, Any]]:
     sb = C15_ALPHABET + STEP_BACK_OPS
     V: List[Dict[str, Any]] = []
     V.append(variant("tick", clock="TICK", depth=4 if q else 6, alphabet=C15_ALPHABET, **one))
-    V.append(variant("tick-retention", clock="TICK", props=True, depth=4 if q else 6, alphabet=C15_ALPHABET, **one))
+    V.append(variant("tick-retention", clock="TICK", props=True, depth=5 if q else 6, alphabet=C15_ALPHABET, **one))
     V.append(variant("frozen", clock="FROZEN", depth=4 if q else 5, alphabet=C15_ALPHABET, **one))
     V.append(variant("frozen-retention", clock="FROZEN", props=True, depth=4 if q else 5, alphabet=C15_ALPHABET, **one))
     V.append(variant("step-back", clock="STEP-BACK", depth=3 if q else 5, alphabet=sb, **one))
@@ -299,15 +299,17 @@ def run(tier: str, seed: int) -> Report:
     rep.cov["alphabet"] = [hist.op_label(o) for o in C15_ALPHABET + STEP_BACK_OPS]
     if tier == "thorough":
         for v in (V[1], V[4]):
-            d = hist.differential(PROP, tier, seed, v, 3, "checks.c15", res["visited"][v["name"]], set(rep.violations), rep)
-            rep.cov.setdefault("differential", {})[v["name"]] = {"depth": 3, "histories": d["nodes"], "canonical_states": d["states"]}
+            d = hist.differential(PROP, tier, seed, v, 4, "checks.c15", res["visited"][v["name"]], set(rep.violations), rep)
+            rep.cov.setdefault("differential", {})[v["name"]] = {"depth": 4, "histories": d["nodes"], "canonical_states": d["states"]}
     for part in pmap("checks.c15", "e4_worker", e4_payloads(tier, seed)):
         rep.merge(part)
     rep.cov["evaluations"] = rep.cov.get("evaluations", 0) + rep.cov.get("e4_cases", 0)
     rep.cov["e4_max_nodes"] = 4 if tier == "quick" else 5
+    rep.cov["states_counting"] = "distinct canonical states, summed over variants (each variant is its own search)"
     rep.cov["exhaustive"] = not rep.caps
     rep.cov["rule"] = (
         "E2: per (clock mode, retention/metadata-log setting, base history) BFS over all histories of <= depth alphabet symbols, "
+        "the successor of a transition that violated a state property or left the table unreadable is not expanded (counted as states_pruned_after_violation / states_broken_not_expanded). "
         "every transition a real API call, every post-state judged by the invariant checker; states deduplicated by the "
         "canonical form of dsmc/hist.py; a canonical state is non-trivial when it retains >= 2 snapshots or some committed "
         "snapshot has been removed; distinct = (variant, canonical post-state). E4: every parent map over n <= N nodes with "
